@@ -276,13 +276,21 @@ def replay_c16(case, doc, obs):
 
                 pres = _collecting_presentation()
                 logf = sb.path("/vfs/log.txt")
+                ok = True
                 try:
                     PyMarkdownLint(presentation=pres).main(extra + ["--log-file", logf] + pre + ["scan", sb.path(F)])
                 except SystemExit:
                     pass
-                routes["scan-file " + " ".join(extra)] = None if any("Error" in e for e in pres.err) else [(f.line_number, f.column_number, f.rule_id, f.rule_name, f.extra_error_information) for f in pres.fails]
+                except Exception:  # noqa  (the replay's own logging environment failed: route not compared)
+                    ok = False
+                routes["scan-file " + " ".join(extra)] = None if (not ok or any("Error" in e for e in pres.err)) else [(f.line_number, f.column_number, f.rule_id, f.rule_name, f.extra_error_information) for f in pres.fails]
             finally:
-                logging.getLogger().setLevel(lvl)
+                root = logging.getLogger()
+                for h in list(root.handlers):
+                    if isinstance(h, logging.FileHandler):
+                        root.removeHandler(h)
+                        h.close()
+                root.setLevel(lvl)
         o3 = real_main(sb, pre + ["fix", F])
         fixed["fix-file"] = None if (any("Error" in e for e in o3["err"]) or o3["code"] == 1) else sb.read(F)
         if doc:
